@@ -219,7 +219,25 @@ def check(run):
                 # low level operations: the model must neither panic nor diverge, and must agree on rows and ok/err
                 if cmd.startswith(LOW) and op[0].startswith("open ok") and key in model:
                     m = model.get(key)
-                    norm = lambda ls: None if ls is None else [("end err" if l.startswith("end err") else "err" if l.startswith("err ") else l) for l in ls]
+                    def norm(ls):
+                        if ls is None:
+                            return None
+                        out_ = []
+                        for l in ls:
+                            if l.startswith("end err"):
+                                l = "end err"
+                            elif l.startswith("err "):
+                                l = "err"
+                            elif l.startswith("obj "):
+                                # names are lower-cased with Go's Unicode tables (invalid UTF-8 becomes U+FFFD); the model folds ASCII only:
+                                # names with bytes >= 0x80 are not compared
+                                f = l.split(" ")
+                                for k in (2, 3):
+                                    if k < len(f) and any(int(f[k][j:j + 2], 16) >= 0x80 for j in range(0, len(f[k]) - 1, 2)):
+                                        f[k] = "?"
+                                l = " ".join(f)
+                            out_.append(l)
+                        return out_
                     if m is not None and any("PANIC" in l or "DIVERGE" in l for l in m) and not bad:
                         run.violation("the model panics / runs out of fuel where the implementation does not: %s (%s)" % (cmd[:60], what),
                                       {"no_failing_input_found": True, "broken": "model totality vs implementation", "db": path, "command": cmd, "model": m[-3:], "impl": out[-3:]})
